@@ -91,6 +91,12 @@ CHECKS = {
             "the expression k times for k - refuted, known finding) + direct: ode vs remove_singularities() on and off the singular "
             "points for 0-3 singularities, single and split layouts, limits re-checked with 50-digit arithmetic.",
             "Gallina model of both combinations with theorems + on/off-singularity differential execution"),
+    "C19": ("Theorems (a validated body binds each name exactly once and never one of the function's own formals dt / t / time; "
+            "consistent renaming of identifiers preserves the value of every expression and renames exactly the occurring names) + "
+            "correspondence: validators on the code generated for every accepted (identifier, role); direct: model with the identifier "
+            "vs the same model with it renamed, for generator-internal names, Python / C keywords and builtins, numpy / math / sympy names "
+            "and underscore / digit shapes, in the roles state / parameter / intermediate, numpy + C + jax.",
+            "Gallina capture-freedom theorems on validated code + rename-and-compare differential execution"),
 }
 
 def main():
